@@ -90,7 +90,7 @@ ASSUMPTIONS = [
     'a missing initial log likelihood or a zero reference likelihood makes the text reports that print it with a precision raise TypeError (modelled refusal)',
 ]
 RULE = (
-    'raw outcomes with K in 1..6; non-trivial = K >= 2 and (Hessian exactly singular / numerically rank-deficient (collinear regressors, low-rank Gram matrices at several scales) / regular but badly scaled (condition number up to ~1e8) / with NaN / indefinite, or bootstrap present, or an active bound); '
+    'raw outcomes with K in 1..6; non-trivial = K >= 2 and (Hessian exactly singular / numerically rank-deficient (collinear regressors, low-rank Gram matrices at several scales) / regular but badly scaled (condition number up to ~1e8) / regular with eigenvalues small in absolute terms (units 1e-3..1 per coordinate, overall scale 1e-4..1e2) / with NaN / indefinite, or bootstrap present, or an active bound); '
     'compiled tables over 1-3 models (objects, pickle file names, directory); likelihood-ratio pairs (tool, method on stubs, method between real objects); '
     'every report case also drives all text report paths of its object (tallies text:<path>:printed/refused)'
 )
@@ -185,6 +185,15 @@ def gen_H(rng, K, kind):
         D = np.diag([10.0 ** rng.choice([-1.5, -1.0, 0.0, 0.0, 1.0, 1.5]) for _ in range(K)])
         H = -(D @ (G @ G.T + np.eye(K)) @ D)
         H = (H + H.T) / 2
+    elif kind == 'units':
+        # regular Hessian whose eigenvalues are small in ABSOLUTE terms (variables in small units, tiny sample,
+        # small weights: e.g. eigenvalues of -H like 3e-6, 60, 75): numerically full rank relative to the
+        # largest one, so the (pseudo-)inverse is the true inverse and no direction may be dropped
+        G = np.array([[dy(rng, -2, 2) for _ in range(K + 2)] for _ in range(K)])
+        M = G @ G.T / (K + 2) + np.eye(K)
+        D = np.diag([10.0 ** rng.choice([-3.0, -2.0, -1.0, 0.0, 0.0]) for _ in range(K)])
+        H = -(D @ M @ D) * 10.0 ** rng.choice([-4.0, -3.0, -2.0, 0.0, 2.0])
+        H = (H + H.T) / 2
     elif kind == 'diag':
         H = -np.diag([rng.choice([0.25, 1.0, 4.0, 16.0]) for _ in range(K)])
     else:  # zero
@@ -194,7 +203,7 @@ def gen_H(rng, K, kind):
 
 def gen_case(rng, K=None, kind=None, boot=None, allow_k1_boot=False):
     K = K or rng.choice([1, 2, 2, 3, 3, 4, 5, 6])
-    kind = kind or rng.choice(['negdef', 'negdef', 'negdef', 'singular', 'singular', 'collinear', 'collinear', 'gram', 'gram', 'scaled', 'scaled', 'nan', 'indefinite', 'diag', 'zero'])
+    kind = kind or rng.choice(['negdef', 'negdef', 'negdef', 'singular', 'singular', 'collinear', 'collinear', 'gram', 'gram', 'scaled', 'scaled', 'units', 'units', 'nan', 'indefinite', 'diag', 'zero'])
     names = rng.sample(NAME_POOL, K)
     beta = [rng.choice([dy(rng, -3, 3), rng.uniform(-2, 2), 0.0, 1.0]) for _ in range(K)]
     H = gen_H(rng, K, kind)
@@ -580,6 +589,16 @@ def oracle(case, out):
                 if not r <= tol:
                     bad.append((f'varCovar is not a pseudo-inverse of -H (Penrose equation {i + 1})', r, f'<= {tol:.3g}', W))
                     break
+            if ref is None and np.all(np.isfinite(A)):
+                # rank ambiguous for the reference, but numerically full rank relative to LAPACK's cut-off
+                # (every singular value > 1e-13 of the largest): the pseudo-inverse is the inverse, A.V = I
+                # up to a RELATIVE tolerance (condition number x rounding)
+                sv = np.linalg.svd(A, compute_uv=False)
+                if sv.size and sv.min() > 1e-13 * sv.max():
+                    cond = float(sv.max() / sv.min())
+                    r = maxabs(A @ V - np.eye(K))
+                    if not r <= min(0.5, 1e4 * K * K * EPS * cond):
+                        bad.append(('varCovar is not the inverse of a regular -H: |(-H).V - I|', r, f'<= {min(0.5, 1e4 * K * K * EPS * cond):.3g}', W))
             if ref is not None:
                 # the pseudo-inverse is unique: it is the reference one, and its entries are bounded by 1/sigma_min+
                 if not maxabs(V) <= 2.0 * K * ref[0] + 1e-300:
@@ -1393,6 +1412,11 @@ CORPUS.append({'kind': 'report', 'hkind': 'corpus', 'names': ['B_TIME', 'ASC_CAR
                'H': [[-4.0e4, 1.0e3], [1.0e3, -3.0e4]], 'B': [[5.0e4, 2.0e3], [2.0e3, 2.5e4]], 'S': None, 'L': -398765.4321, 'init': -398771.0,
                'null': -412345.678, 'N': 2500000, 'nobs': 2500000, 'excluded': 0, 'mc': False, 'ndraws': 0, 'threads': 1})
 
+# a regular Hessian with one small but valid eigenvalue (a variable in small units): eigenvalues of -H about 2e-6, 45, 75
+CORPUS.append({'kind': 'report', 'hkind': 'units', 'names': ['b_cost', 'asc', 'b_time'], 'beta': [250.0, -0.5, 1.25], 'bounds': [[None, None]] * 3,
+               'H': [[-2.5e-6, 3.0e-4, -2.0e-4], [3.0e-4, -60.0, 15.0], [-2.0e-4, 15.0, -60.0]], 'B': [[3.0e-6, 1.0e-4, 0.0], [1.0e-4, 50.0, 5.0], [0.0, 5.0, 70.0]],
+               'S': None, 'L': -40.0, 'init': -55.0, 'null': -55.0, 'N': 12, 'nobs': 12, 'excluded': 0, 'mc': False, 'ndraws': 0, 'threads': 1})
+
 CORPUS_K1_BOOT = {
     'kind': 'report', 'hkind': 'corpus', 'names': ['b'], 'beta': [0.5], 'bounds': [[None, None]], 'H': [[-4.0]], 'B': [[3.0]],
     'S': [[0.4], [0.6], [0.5]], 'L': -100.0, 'init': -120.0, 'null': None, 'N': 100, 'nobs': 100, 'excluded': 0, 'mc': False, 'ndraws': 0, 'threads': 1,
@@ -1415,7 +1439,7 @@ CORPUS_LR = [
 
 def nontrivial(case):
     return len(case['beta']) >= 2 and (
-        case.get('hkind') in ('singular', 'collinear', 'gram', 'scaled', 'nan', 'indefinite', 'zero', 'real') or case['S'] is not None
+        case.get('hkind') in ('singular', 'collinear', 'gram', 'scaled', 'units', 'nan', 'indefinite', 'zero', 'real') or case['S'] is not None
         or any(l is not None or u is not None for l, u in case['bounds'])
     )
 
